@@ -17,8 +17,9 @@ DECIDES = ('necessary conditions of the tensor-product sum: the control net is a
            'their own direction (DOM1); all entry points of a class share one evaluator object call (EP1, reported); [SKEL, bounded] no index '
            'error and no placeholder consumed in A3.1/A3.5 skeletons. the [0, 1] parameter rejection is only evaluated for shapes with normalised knot vectors (RG1). the cached evaluated points can never be stale after an edit of the definition or of the sampling (IV1 restricted to the evaluated points cache, inductive over histories). every rational evaluator forwards all of its arguments, the start/stop range in **kwargs included, to its non-rational parent (EV2); [SKEL, bounded, exact per tuple] every evaluated point is computed from exactly the control points span - degree .. span of each direction at the canonical flat index (SK5 dependency footprint). both pluggable span searches return the non-empty half-open span of every parameter, knots of any multiplicity and the domain end included (OT1, order types). [SKEL, abstract object] interpreted on an object created with normalize_kv=False, the named methods never reach utilities.check_params and hand the request on to the evaluator / operation (RG2: spelling-independent form of RG1).')
 NOT_DECIDED = ('numerical equality with the Cox-de Boor sum; correctness of span search and basis values (C03); exact end points of the sampled grid '
-               '(floating point in linspace) and rounding in sample_size (e.g. floor(1/delta + 0.5) vs int(1/delta)).')
+               '(floating point in linspace); the floating-point rounding of the sums themselves (the exact rules decide the algebra, not the last bit).')
 TECHNIQUE = 'stride rule in polynomial normal form, axis-tag dataflow, key-set agreement, per-point map extraction'
+DECIDES += (' [ABSTRACT INTERPRETATION, exact] EVX: evaluate() of all six evaluator classes, interpreted with symbolic basis tables and control points and recorder helpers, returns for every sample of the grid exactly the tensor-product sum (over the weight sum for rational shapes), listed u-major, every helper asked with the data of its own direction; A36S / A34S: the zeroth and higher derivatives of both evaluator families are the exact sums of A3.2 / A3.4 / A3.6 / A3.8 (spelling-independent: LY1, BP1, RP1, GO1 on the evaluators only corroborate). FD2: no sample-size getter truncates the float quotient 1 / delta.')
 
 EVAL_CLASSES = ['CurveEvaluator', 'CurveEvaluatorRational', 'CurveEvaluator2', 'SurfaceEvaluator', 'SurfaceEvaluatorRational', 'SurfaceEvaluator2',
                 'VolumeEvaluator', 'VolumeEvaluatorRational']
